@@ -37,6 +37,7 @@ CLASS_VARIANTS = tuple(BASE)
 # x2fail nests two levels deep
 EXEC_VARIANTS = ("xpass", "xfail", "xerror", "x2fail")
 BASE.update({"xpass": "pass", "xfail": "fail", "xerror": "fail", "x2fail": "fail"})
+NOTABLE = "__no_table__"     # marker in the tags of a (row-less) examples block: render the keyword line only
 PTAG = "<tg>"          # parametrised outline tag; the row supplies the value in column "tg"
 
 
@@ -306,8 +307,10 @@ def render(feature, fi=0, indent="  ", language=None):
                 has_ptag = PTAG in it[1]
                 ri = 0
                 for b, (extags, rows) in enumerate(it[3]):
-                    tagline(extags, ind + indent * 2)
+                    tagline(tuple(t for t in extags if t != NOTABLE), ind + indent * 2)
                     emit("%sExamples: E%d" % (ind + indent * 2, b))
+                    if NOTABLE in extags:
+                        continue        # an Examples section WITHOUT any table (tolerated by behave: no scenarios)
                     has_tg = has_ptag and (not rows or len(rows[0]) > ncols)    # a block may lack the "tg" column
                     width = max([len(r) for r in rows] + [ncols + (1 if has_tg else 0)]) - (1 if has_tg else 0)
                     cols = ["o%d" % c for c in range(width)] + (["tg"] if has_tg else [])
@@ -367,6 +370,11 @@ def shapes(tier="quick"):
     e_first = O2([((), ()), ((), (("pass",), ("pass",)))])
     e_last = O2([((), (("pass",),)), ((), ())])
     for f in (F((e_first,)), F((e_last, S())), F((S(), R((e_first,), bg=("pass",)))), F((e_last,), bg=("pass",))):
+        yield f
+    # ... and the same with an Examples section that has NO table at all (keyword line only)
+    n_first = O2([((NOTABLE,), ()), ((), (("pass",), ("pass",)))])
+    n_last = O2([((), (("pass",),)), ((NOTABLE,), ())])
+    for f in (F((n_first,)), F((n_last, S())), F((S(), R((n_first,), bg=("pass",))))):
         yield f
     # a scenario without steps of its own whose only children are the inherited background steps
     for f in (F((S(()), S()), bg=("pass",)), F((R((S(()),), bg=("pass",)),)), F((R((S(()), S())),), bg=("pass",))):
